@@ -58,21 +58,22 @@ func (c *Ctx) Has(fn *ssa.Function) bool {
 }
 
 type Node struct {
-	ID         int
-	Kind       NodeKind
-	Ctx        *Ctx
-	Instr      ssa.Instruction
-	Succs      []*Node
-	Preds      []*Node
-	Call       *ssa.CallCommon
-	Callee     *ssa.Function
-	Inl        *Ctx
-	CallNode   *Node
-	Deferred   bool // executes a deferred call (at the function's RunDefers)
-	IsGo       bool
-	Recursive  bool // call not expanded because the callee is already on the context chain
-	Unmodelled bool // function value handed to an unmodelled callee
-	First      bool // first node of its basic block
+	ID          int
+	Kind        NodeKind
+	Ctx         *Ctx
+	Instr       ssa.Instruction
+	Succs       []*Node
+	Preds       []*Node
+	Call        *ssa.CallCommon
+	Callee      *ssa.Function
+	Inl         *Ctx
+	CallNode    *Node
+	Deferred    bool // executes a deferred call (at the function's RunDefers)
+	IsGo        bool
+	Recursive   bool // call not expanded because the callee is already on the context chain
+	Unmodelled  bool // function value handed to an unmodelled callee
+	ResolvedDyn bool // dynamic call through a parameter, resolved to a function literal in this context
+	First       bool // first node of its basic block
 }
 
 func (n *Node) String() string {
@@ -303,6 +304,28 @@ func (g *XG) instantiate(ctx *Ctx) (entry *Node, rets []*Node) {
 	return first[fn.Blocks[0]], rets
 }
 
+// resolveFuncValue: the function a function-typed value denotes in calling context ctx, when it is a parameter
+// whose argument at the call site of this context is a function literal / named function (followed upwards
+// through at most a few contexts).
+func resolveFuncValue(ctx *Ctx, v ssa.Value, depth int) *ssa.Function {
+	if depth > 4 || ctx == nil {
+		return nil
+	}
+	if f := funcArg(v); f != nil {
+		return f
+	}
+	pa, ok := v.(*ssa.Parameter)
+	if !ok || ctx.Callback || ctx.CallNode == nil || ctx.CallNode.Call == nil || ctx.Parent == nil {
+		return nil
+	}
+	for i, p := range ctx.Fn.Params {
+		if p == pa && i < len(ctx.CallNode.Call.Args) {
+			return resolveFuncValue(ctx.Parent, ctx.CallNode.Call.Args[i], depth+1)
+		}
+	}
+	return nil
+}
+
 // funcArg resolves a function-typed operand to a source function when it is a closure or a named function.
 func funcArg(v ssa.Value) *ssa.Function {
 	switch v := v.(type) {
@@ -391,6 +414,15 @@ func (g *XG) call(ctx *Ctx, in ssa.Instruction, c *ssa.CallCommon, deferred bool
 	if b, ok := c.Value.(*ssa.Builtin); ok && b.Name() == "panic" {
 		n.Kind = KExit
 		return n, nil
+	}
+	if callee == nil && !c.IsInvoke() {
+		// a call through a function-typed parameter: in this calling context the argument may be a known function
+		// literal ("audited(what, func() {...})" calling do()): then the literal is what runs
+		if f := resolveFuncValue(ctx, c.Value, 0); f != nil && f.Blocks != nil && g.P.IsRepo(f) {
+			callee = f
+			n.Callee = f
+			n.ResolvedDyn = true
+		}
 	}
 	if callee == nil {
 		return n, n
